@@ -511,7 +511,7 @@ func (propC12) WorkerDied(tier string, seed uint64, msg string) *Violation {
 
 func (propC12) Meta() PropMeta {
 	return PropMeta{
-		Rule: "each case = one input string derived from a generated valid document (prefix; single-character deletion, insertion, substitution; 1-2 token-level mutations: delete/duplicate/swap/insert, i.e. valid tokens in invalid orders; an illegal character # @ ~ $ ; injected at a token boundary; item kinds that do not match the context; an error followed by 0-100 further items; nesting 1..2000; random runes and raw bytes incl. NUL and invalid UTF-8; the valid document itself; trailing garbage; a 1-100 byte token at the error point; a missing end-of-line in a multi-line sequence; rarely a 66-70 KB line, an error on line 1202 or after 6000 tokens; thorough: 1-3 further stacked character mutations) parsed under 1-2 seeded schedules, one case in four on a parser instance with a history of earlier parses, one in eight next to a second concurrent caller parsing a valid document (scanner-first to maximise tokens in flight when the parser dies, random, parser-first). The parser panicking mid-stream is the injected fault: the consumer of the token queue dies at an arbitrary token while the producer still has input. Oracles: main ends with a value or a string matching the located diagnostic format; never a runtime.Error; reported line/position exist in the input and the named token text really begins there; injected characters are reported at the injection point; for token-level inputs the diagnostic names the first token at which no derivation of the grammar can continue (harness's own tokenizer and kind-aware recogniser), or the start of an unfinished association key, an earlier unrepresentable literal, or the context of a kind mismatch; after main has ended every task must finish (no scanner parked forever). Distinct = distinct (input, schedule traces).",
+		Rule: "each case = one input string derived from a generated valid document (prefix; single-character deletion, insertion, substitution; 1-2 token-level mutations: delete/duplicate/swap/insert, i.e. valid tokens in invalid orders; an illegal character # @ ~ $ ; injected at a token boundary; item kinds that do not match the context; an error followed by 0-100 further items; nesting 1..2000; random runes and raw bytes incl. NUL and invalid UTF-8; the valid document itself; trailing garbage; a 1-100 byte token at the error point; a missing end-of-line in a multi-line sequence; rarely a 66-70 KB line, an error on line 1202 or after 6000 tokens (these four are also the first four cases of every batch); cases 4-7 of every batch are valid Sets of two equal members nested 16, 17, 17 and 40 levels (beyond 16: the recorded known finding); thorough: 1-3 further stacked character mutations) parsed under 1-2 seeded schedules, one case in four on a parser instance with a history of earlier parses, one in eight next to a second concurrent caller parsing a valid document (scanner-first to maximise tokens in flight when the parser dies, random, parser-first). The parser panicking mid-stream is the injected fault: the consumer of the token queue dies at an arbitrary token while the producer still has input. Oracles: main ends with a value or a string matching the located diagnostic format; never a runtime.Error; reported line/position exist in the input and the named token text really begins there; injected characters are reported at the injection point; for token-level inputs the diagnostic names the first token at which no derivation of the grammar can continue (harness's own tokenizer and kind-aware recogniser), or the start of an unfinished association key, an earlier unrepresentable literal, or the context of a kind mismatch; after main has ended every task must finish (no scanner parked forever). Distinct = distinct (input, schedule traces).",
 		Assumptions: []string{
 			"the 'not later than the first offending token' oracle is applied only to inputs built from known tokens",
 			"a worker process dying with a fatal stack overflow is attributed to the announced input",
